@@ -183,6 +183,17 @@ class StoreModel:
                 t = self._expr(val, f, env, conds, out, handlers, depth)
                 targets = st.targets if isinstance(st, ast.Assign) else [st.target]
                 for tg in targets:
+                    if isinstance(tg, ast.Subscript) and isinstance(tg.value, ast.Name) and tg.value.id in env:
+                        # d[k] = v on a local mapping: remember what its items look like (loops over it later are
+                        # bound component-wise, e.g. a two-pass `stale[path] = key` ... `for (path, key) in stale.items()`)
+                        cur = env[tg.value.id]
+                        is_map = isinstance(cur, tuple) and cur and (cur[0] in ("dict", "mapping") or (
+                            cur[0] == "call" and isinstance(cur[1], str) and cur[1].split(".")[-1] in ("OrderedDict", "dict") and len(cur) == 2))
+                        if is_map:
+                            kt = self._expr(tg.slice, f, env, conds, out, handlers, depth)
+                            new = ("mapping", kt, t)
+                            env[tg.value.id] = new if cur[0] != "mapping" or cur == new else ("mapping", ("phi", cur[1], kt), ("phi", cur[2], t))
+                            continue
                     self._bind(tg, t, val, f, env)
             elif isinstance(st, ast.AugAssign):
                 t = self._expr(st.value, f, env, conds, out, handlers, depth)
@@ -272,6 +283,15 @@ class StoreModel:
                 self._bind(target.elts[0], ("sym", "PATH"), iter_expr, f, env)
                 self._bind(target.elts[1], ("sym", "KEY"), iter_expr, f, env)
                 return
+            mp = _as_mapping(base)
+            if mp is not None and isinstance(target, (ast.Tuple, ast.List)) and len(target.elts) == 2:
+                self._bind(target.elts[0], mp[1], iter_expr, f, env)
+                self._bind(target.elts[1], mp[2], iter_expr, f, env)
+                return
+        mp = _as_mapping(it)
+        if mp is not None and isinstance(target, ast.Name):
+            env[target.id] = mp[1]
+            return
         if base == ("sym", "PATHS_LIST") and isinstance(target, ast.Name):
             env[target.id] = ("sym", "PATH")
             return
@@ -624,6 +644,18 @@ class StoreModel:
         if not found:
             out.append(Effect("WRITE_INPLACE" if method == "serialize_into" else "READ", flatten(loc), e, f, conds,
                               extra={"how": f"codec.{method} (no implementation summarised)"}, handlers=list(handlers)))
+
+
+def _as_mapping(t: Any) -> Optional[Term]:
+    """("mapping", k, v) behind a term; a phi with the still-empty mapping is the mapping (it has no items)"""
+    if isinstance(t, tuple) and t:
+        if t[0] == "mapping":
+            return t
+        if t[0] == "phi":
+            alts = [x for x in t[1:] if not (isinstance(x, tuple) and x and (x[0] == "dict" or (x[0] == "call" and len(x) == 2)))]
+            if len(alts) == 1:
+                return _as_mapping(alts[0])
+    return None
 
 
 def _terminates(stmts: List[ast.stmt]) -> bool:
